@@ -36,7 +36,7 @@ Proof. now apply archive_eqb_eq. Qed.
 Theorem c03_holds_on_true s : c03_holds_on s = true.
 Proof.
   unfold c03_holds_on. cbv zeta.
-  rewrite parse_idx_eq, archive_eqb_refl, parse_format_parse, archive_eqb_refl.
+  rewrite parse_idx_eq, archive_eqb_refl, format_idx_eq, bytes_eqb_refl, parse_format_parse, archive_eqb_refl.
   destruct (parse_data_nl s) as [Hc Hd].
   unfold nl_terminated at 1. rewrite Hc, bytes_eqb_refl. cbn [andb].
   replace (forallb (fun nd => nl_terminated (snd nd)) (files (parse s))) with true.
